@@ -267,6 +267,9 @@ func typeNameFull(t types.Type) string {
 }
 
 func (u *Unit) fnShort(fn *ssa.Function) string {
+	if fn == nil {
+		return "theorem " + u.thName
+	}
 	if fn.Pkg != nil {
 		return fn.RelString(fn.Pkg.Pkg)
 	}
